@@ -19,9 +19,9 @@
       OForget nothing is leaked.
     - map_by_val on the non-completing paths: C15_map_by_val_accounting,
       C15_map_by_val_leak_only_after_break, C15_map_by_val_inputs_exactly_once.
-    NOT YET PROVED: the same every-path accounting for from_fn_! (track = false, the inputs
-    are [()]s that do not appear in the ledger) is not stated; its completing path and
-    no-UB are C11's. *)
+      The same for from_fn_! (inputs not in the ledger): C15_from_fn_by_val_accounting.
+    NOT YET PROVED: nothing that this file states; what stays outside any Coq statement is
+    the "partial by nature" part above. *)
 From Coq Require Import Permutation.
 From KV Require Import Base.Prelude Model.Ledger Model.Destructure
   Proofs.LedgerProofs Proofs.DestructureProofs Proofs.LedgerHistoryProofs.
@@ -201,6 +201,11 @@ Theorem C15_map_by_val_accounting : forall clo ids,
       forall i, occ (accounted ev) i + occ leak i = occ ids i + occ (produced clo 0 ids) i
   end.
 Proof. exact map_by_val_accounting. Qed.
+Theorem C15_map_by_val_exactly_once : forall clo ids,
+  match map_by_val clo ids with
+  | (r, ev, leak) => Permutation (accounted ev ++ leak) (ids ++ produced clo 0 ids)
+  end.
+Proof. exact map_by_val_exactly_once. Qed.
 Theorem C15_map_by_val_leak_only_after_break : forall clo ids,
   match map_by_val clo ids with
   | (r, ev, leak) =>
@@ -218,6 +223,15 @@ Theorem C15_map_by_val_inputs_exactly_once : forall clo ids,
         (~ In i leak /\ occ (accounted ev) i = 1) \/ (In i leak /\ ~ In i (accounted ev))
   end.
 Proof. exact map_by_val_inputs_exactly_once. Qed.
+(** from_fn_! on every path: exactly the values the body produced are handed over (when the
+    array is built) or dropped (when the loop was left early), each once *)
+Theorem C15_from_fn_by_val_accounting : forall clo N,
+  match from_fn_by_val clo N with
+  | (r, ev, _) =>
+      cloned ev = [] /\
+      Permutation (accounted ev) (produced (fun k _ => clo k (Z.of_nat k)) 0 (repeat 0%Z N))
+  end.
+Proof. exact from_fn_by_val_accounting. Qed.
 Example C15_map_by_val_break_satisfiable :
   map_by_val (fun k _ => match k with 0 => OValue 10%Z | 1 => OContinue | 2 => OBreak | _ => OPanic end)
              [1; 2; 3; 4; 5]%Z
@@ -271,8 +285,10 @@ Print Assumptions C15_history_clone_ids_fresh.
 Print Assumptions C15_history_clone_sources_live.
 Print Assumptions C15_history_satisfiable.
 Print Assumptions C15_map_by_val_accounting.
+Print Assumptions C15_map_by_val_exactly_once.
 Print Assumptions C15_map_by_val_leak_only_after_break.
 Print Assumptions C15_map_by_val_inputs_exactly_once.
+Print Assumptions C15_from_fn_by_val_accounting.
 Print Assumptions C15_map_by_val_break_satisfiable.
 Print Assumptions C15_destructure_exactly_once.
 Print Assumptions C15_destructure_no_duplicates.
